@@ -187,7 +187,9 @@ impl Repo {
             s += &format!("commit refs/heads/zztmp\nmark :{}\nauthor a <a@a> {} +0900\ncommitter v <v@v> {} +0000\ndata {}\n{}\n", i + 1, author, dates[i], msg.len(), msg);
             if let Some(p) = ps.first() { s += &format!("from :{}\n", p + 1); }
             for p in ps.iter().skip(1) { s += &format!("merge :{}\n", p + 1); }
-            s += &format!("M 100644 inline f{i}\ndata {}\n{}\n", msg.len(), msg);
+            // every third commit is empty (tree identical to its first parent, as `git commit --allow-empty`, "ci: trigger"
+            // commits or `merge -s ours` produce): it still counts for the distance
+            if i % 3 != 2 { s += &format!("M 100644 inline f{i}\ndata {}\n{}\n", msg.len(), msg); }
             if i == 0 { s += "M 100644 inline .gitignore\ndata 8\nignored*\n"; }
             s += "\n";
         }
